@@ -25,6 +25,8 @@ import (
 //   amsg <c> <m>         message m is written: dispatched:<key>:<m> | queued | closed
 //   areident <c> <ident> one more identity message on a connection that is served: ignored
 //   agone <c>            the peer closes its end
+//   astop                Router.Stop (once; no aconn afterwards): receive loops end, nothing is dispatched any more;
+//                        areg / alaunch of goroutines that stood before registration / launch: closed
 
 type c17raw struct {
 	idx       int
@@ -32,6 +34,8 @@ type c17raw struct {
 	closed    chan struct{} // the server closed the connection
 	parked    chan string   // hook -> harness: the point reached
 	release   chan struct{} // harness -> hook
+	exited    chan struct{} // the server's accept callback for this connection has returned
+	exitOnce  sync.Once
 	phase     string        // wait | checked | registered | running | closed
 	key       int
 	okAtCheck bool // the reference's verdict at the moment the identity was tested
@@ -54,7 +58,7 @@ func c17addrKey(a network.Address) string {
 }
 
 func c17hook(name string, r *network.Router, c network.Conn) {
-	if name != "accept:before-register" && name != "accept:before-launch" {
+	if name != "accept:before-register" && name != "accept:before-launch" && name != "accept:exit" {
 		return
 	}
 	v, ok := c17worlds.Load(r)
@@ -67,6 +71,11 @@ func c17hook(name string, r *network.Router, c network.Conn) {
 	w.rawMu.Unlock()
 	if rc == nil {
 		return // a connection of a bare router of the history: not held
+	}
+	if name == "accept:exit" {
+		// the callback of Router.Start returns (deferred call: whatever way it took)
+		rc.exitOnce.Do(func() { close(rc.exited) })
+		return
 	}
 	rc.parked <- name
 	<-rc.release
@@ -119,6 +128,17 @@ func (rc *c17raw) waitPoint(name string) string {
 		return "at:" + got
 	case <-closed:
 		return "closed"
+	case <-rc.exited:
+		// the callback returned without reaching the point: it refused the connection (and closed it before it returned)
+		select {
+		case got := <-rc.parked: // both ready: the point came first
+			if got == name {
+				return "at"
+			}
+			return "at:" + got
+		default:
+		}
+		return "closed"
 	case <-time.After(4 * time.Second):
 		return "timeout"
 	}
@@ -146,7 +166,7 @@ func (w *c17world) accOp(tk []string) (string, bool) {
 	}
 	switch {
 	case tk[1] == "aconn" && len(tk) == 3:
-		if c != len(w.raws) {
+		if c != len(w.raws) || w.stopped {
 			return "", false
 		}
 		w.accInit()
@@ -169,7 +189,7 @@ func (w *c17world) accOp(tk []string) (string, bool) {
 			cs.Fail("harness", "raw connection: "+err.Error())
 			return "harness-error", true
 		}
-		rc = &c17raw{idx: c, conn: conn, closed: make(chan struct{}), parked: make(chan string), release: make(chan struct{}, 4),
+		rc = &c17raw{idx: c, conn: conn, closed: make(chan struct{}), parked: make(chan string), release: make(chan struct{}, 4), exited: make(chan struct{}),
 			phase: "wait", peerOpen: true}
 		w.rawMu.Lock()
 		w.rawByAddr[local] = rc
@@ -258,8 +278,11 @@ func (w *c17world) accOp(tk []string) (string, bool) {
 		default:
 			obs, rc.phase = got, "closed"
 		}
-		if obs != "registered" {
+		if obs != "registered" && !w.stopped {
 			cs.Fail("accepted-connection-dropped", fmt.Sprintf("connection %d of peer %d passed the validity test; registering it gave %q", c, rc.key, obs))
+		}
+		if obs == "registered" && w.stopped {
+			cs.Fail("registered-after-stop", fmt.Sprintf("connection %d was registered by a router that had been stopped", c))
 		}
 		return obs, true
 
@@ -268,6 +291,15 @@ func (w *c17world) accOp(tk []string) (string, bool) {
 			return "", false
 		}
 		rc.release <- struct{}{}
+		if w.stopped {
+			// launchHandleRoutine of a stopped router refuses: no receive loop, nothing dispatched
+			rc.phase, rc.queued = "closed", nil
+			if d := w.stray(40 * time.Millisecond); d != "" {
+				cs.Fail("dispatched-after-stop", "connection "+tk[2]+" launched after Router.Stop: "+d)
+				return "launched+" + d, true
+			}
+			return "closed", true
+		}
 		rc.phase = "running"
 		var got []int
 		deadline := time.After(4 * time.Second)
@@ -374,6 +406,43 @@ func (w *c17world) accOp(tk []string) (string, bool) {
 		return "ok", true
 	}
 	return "", false
+}
+
+// accStop: Router.Stop while goroutines of accepted connections stand wherever the history left them.
+func (w *c17world) accStop() (string, bool) {
+	cs := w.cs
+	if w.stopped || w.srv == nil {
+		return "", false
+	}
+	w.stopped = true
+	done := make(chan error, 1)
+	go func() { done <- w.srv.Router.Stop() }()
+	select {
+	case <-done:
+	case <-time.After(6 * time.Second):
+		cs.Fail("stop-blocked", "Router.Stop did not return within 6 s")
+		return "timeout", true
+	}
+	for _, rc := range w.raws {
+		if rc.phase != "running" && rc.phase != "registered" {
+			continue
+		}
+		if rc.peerOpen {
+			select {
+			case <-rc.closed:
+			case <-time.After(3 * time.Second):
+				cs.Fail("open-after-stop", fmt.Sprintf("connection %d was registered; Router.Stop left it open", rc.idx))
+			}
+		}
+		if rc.phase == "running" {
+			rc.phase = "closed"
+		}
+	}
+	if d := w.stray(20 * time.Millisecond); d != "" {
+		cs.Fail("dispatched-after-stop", "after Router.Stop: "+d)
+		return "ok+" + d, true
+	}
+	return "ok", true
 }
 
 // stray reports a dispatch that arrives within d although none is expected.
